@@ -83,3 +83,11 @@ package main
 //@   let ok = len(args) == 6 && sarg(args[0]) && sarg(args[1]) && sarg(args[2]) && sarg(args[3]) && sarg(args[4]) && sarg(args[5])
 //@   ensures[error] !(ok && (jsstring(args[0]) == "totp" || jsstring(args[0]) == "hotp")) ==> iserr(r)
 //@   ensures[string] jstype(r) == 4
+//@   let kindok = ok && (jsstring(args[0]) == "totp" || jsstring(args[0]) == "hotp")
+//@   ensures[scheme] kindok ==> uscheme(jsstring(r)) == "otpauth" && uhost(jsstring(r)) == jsstring(args[0])
+//@   ensures[label] kindok ==> upath(jsstring(r)) == cat("/", jsstring(args[1]), ":", jsstring(args[2]))
+//@   ensures[secret] kindok ==> qget(uquery(jsstring(r)), "secret") == jsstring(args[3]) && qget(uquery(jsstring(r)), "issuer") == jsstring(args[1])
+//@   ensures[digits] kindok ==> qget(uquery(jsstring(r)), "digits") == dec(digitsof(jsstring(args[4])))
+//@   ensures[algorithm] kindok ==> qget(uquery(jsstring(r)), "algorithm") == algname(algoof(jsstring(args[5])))
+//@   ensures[period] kindok && jsstring(args[0]) == "totp" ==> qget(uquery(jsstring(r)), "period") == dec(30)
+//@   ensures[counter] kindok && jsstring(args[0]) == "hotp" ==> qget(uquery(jsstring(r)), "counter") == "0"
